@@ -10,6 +10,8 @@ import (
 	"encoding/json"
 	"fmt"
 	"os"
+	"regexp"
+	"strings"
 	"sync"
 )
 
@@ -78,11 +80,14 @@ func String(name string, maxLen int) string {
 	return s
 }
 
-// Runes returns an arbitrary string of exactly n code points drawn from the alphabet Sigma.
-func Runes(name string, n int) string {
-	v, _ := lookup(name)
-	s, _ := v.(string)
-	return s
+// Runes returns an arbitrary string of at most maxLen code points drawn from the alphabet Sigma.
+func Runes(name string, maxLen int) string {
+	n := Int(name+".len", 0, maxLen)
+	r := make([]rune, n)
+	for i := range r {
+		r[i] = rune(Int(fmt.Sprintf("%s[%d]", name, i), 0, 0x10FFFF))
+	}
+	return string(r)
 }
 
 // Choose returns an arbitrary integer in [0,k).
@@ -165,3 +170,20 @@ func Bytes(name string, maxLen int) string {
 	}
 	return string(b)
 }
+
+// RefFoldEq is the reference meaning of "equal under Unicode (simple) case folding".
+func RefFoldEq(a, b string) bool { return strings.EqualFold(a, b) }
+
+// RefRegexpMatch is the reference meaning of "the RE2 expression finds a match in s".
+func RefRegexpMatch(expr, s string) bool { return regexp.MustCompile(expr).MatchString(s) }
+
+// RefRegexpValid reports whether expr is a valid RE2 expression.
+func RefRegexpValid(expr string) bool { _, err := regexp.Compile(expr); return err == nil }
+
+func init() { NativeFuncs["RefRegexpValid"] = RefRegexpValid }
+
+// Or / And / Implies / Ite: boolean connectives that do not fork the symbolic executor
+// (Go's || and && compile to branches).
+func Or(a, b bool) bool      { return a || b }
+func And(a, b bool) bool     { return a && b }
+func Implies(a, b bool) bool { return !a || b }
